@@ -8,6 +8,8 @@ package main
 // into the caller's vocabulary by substituting parameters with the call's arguments.
 
 import (
+	"strconv"
+	"strings"
 	"go/types"
 
 	"golang.org/x/tools/go/ssa"
@@ -409,6 +411,54 @@ func liftedSendSites(fns []*ssa.Function) []chanSendSite {
 					if st.Send != nil {
 						lift(fn, in, st.Chan, 3)
 					}
+				}
+			}
+		}
+	}
+	return out
+}
+
+// variantAllocTable: for the heap-allocated named struct types selected by pick that root or a same-package helper it
+// calls constructs, the integer value of the branch atom under which each construction is reachable. An atom is any
+// left side of an "atom == k" edge fact; a construction is attributed to value v when, for some atom, v is the only
+// value in [-1,maxID+2] that keeps its block feasible.
+func variantAllocTable(root *ssa.Function, maxID int64, pick func(t *types.Named) bool) map[int64][]string {
+	out := map[int64][]string{}
+	for _, f := range closureFuncs(root, 2) {
+		atoms := map[string]bool{}
+		for _, ef := range edgeFacts(f) {
+			if i := strings.Index(ef.Fact, " == "); i > 0 {
+				if _, err := strconv.ParseInt(ef.Fact[i+4:], 10, 64); err == nil {
+					atoms[ef.Fact[:i]] = true
+				}
+			}
+		}
+		if len(atoms) == 0 {
+			continue
+		}
+		for _, in := range fnInstrs(f) {
+			al, ok := in.(*ssa.Alloc)
+			if !ok {
+				continue
+			}
+			pt, ok := al.Type().(*types.Pointer)
+			if !ok {
+				continue
+			}
+			nt, ok := pt.Elem().(*types.Named)
+			if !ok || !pick(nt) {
+				continue
+			}
+			for atom := range atoms {
+				var vs []int64
+				for v := int64(-1); v <= maxID+2; v++ {
+					if feasibleBlocks(f, map[string]int64{atom: v})[al.Block()] {
+						vs = append(vs, v)
+					}
+				}
+				if len(vs) == 1 {
+					out[vs[0]] = append(out[vs[0]], nt.Obj().Name())
+					break
 				}
 			}
 		}
